@@ -12,6 +12,7 @@ PROPS = {
     "C02": dict(level="exploration", shards=(4, 16), timeout=(900, 3000), assumptions=COMMON, fuzz=[("FuzzC02", 240)]),
     "C01": dict(level="exploration", shards=(4, 16), timeout=(600, 3000), assumptions=COMMON),
     "C06": dict(level="exploration", shards=(2, 16), timeout=(300, 1500), assumptions=COMMON),
+    "C09": dict(level="exploration", shards=(4, 16), timeout=(600, 3000), assumptions=COMMON + ["loopback TCP delivers bytes in order; the scripted peer's own count of stanzas it sent is the wire truth"]),
     "C14": dict(level="exploration", shards=(4, 16), timeout=(600, 3000), assumptions=COMMON + ["loopback TCP delivers bytes in order; the scripted peer's transcript is what the client wrote"]),
     "C15": dict(level="exploration", shards=(2, 16), timeout=(300, 1500), assumptions=COMMON, fuzz=[("FuzzC15", 60)]),
     "C16": dict(level="exploration", shards=(4, 16), timeout=(600, 3000), assumptions=COMMON + ["loopback TCP delivers bytes in order; the scripted peer's transcript is what the component wrote"]),
@@ -24,6 +25,11 @@ NOT_APPLICABLE = {}
 
 # Texts for MANIFEST.json
 TEXT = {
+    "C09": dict(
+        technique="history-based property test (rapid) of a real Client against a scripted peer that keeps the wire truth",
+        level_text="Exploration: generated inbound histories over stanzas, <r/>, <a/> and other non-stanza elements on 1-4 successive connections of one stream-managed session (drop + Resume in between); the peer counts the stanzas it sent and compares the h of every <a/> answer and of every <resume/> with that count, and previd with the id it gave.",
+        level_note="2000 histories quick, 60k thorough, up to 60 elements per connection. The <a/> elements sent by the peer carry a very large h so that the (separate, C10) retransmission logic stays quiet.",
+    ),
     "C16": dict(
         technique="property-based test (rapid) of a real Component against a scripted XMPP peer; digest recomputed by the harness; reply alphabet enumerated by variant",
         level_text="Exploration: generated stream ids (attribute-legal text incl. entities, quotes, non-ASCII, empty) and secrets (arbitrary bytes) crossed with the server's reply (handshake in 3 forms, 8 stream errors, 8 unexpected elements, 4 malformed forms, truncated, closed); a real Component connects over loopback TCP; the handshake text must be the lower-case hex SHA-1 of id||secret, and Connect nil / state established / next stanza routed must hold exactly when the reply was <handshake/>.",
